@@ -88,8 +88,9 @@ MadNext(s, x) ==
         dq  == Set(s.deque, s.index, x)
         idx == Adv(s.index, s.period)
         \* mean = sum / cnt ; mad = (sum_i |v_i - mean|) / cnt  over the first cnt slots
-        dev == FoldLeft(LAMBDA a, v : a + Abs(cnt * v - sum), 0, SubSeq(dq, 1, cnt))
-    IN R([s EXCEPT !.deque = dq, !.index = idx, !.count = cnt, !.sum = sum], Norm(dev, cnt * cnt))
+        big == TooBig(dq, 500000000)          \* the integer deviation sum would not fit 32 bits
+        dev == IF big THEN 0 ELSE FoldLeft(LAMBDA a, v : a + Abs(cnt * v - sum), 0, SubSeq(dq, 1, cnt))
+    IN R([s EXCEPT !.deque = dq, !.index = idx, !.count = cnt, !.sum = sum], IF big THEN OVF ELSE Norm(dev, cnt * cnt))
 MadReset(s) == [s EXCEPT !.index = 0, !.count = 0, !.sum = 0, !.deque = Rep(s.period, 0)]
 
 (* Minimum: cached extreme index, rescan (first strictly smaller wins) on eviction *)
